@@ -149,6 +149,15 @@ def scenarios(ctx, sync=False):
                 await susp(("exit",))
                 log.append("cm")
 
+            # the manager also offers the synchronous protocol: wherever an asynchronous one is expected the library
+            # uses the asynchronous methods, so the user's suspensions are not lost
+            def __enter__(s):
+                log.append("sync enter")
+                return 1
+
+            def __exit__(s, *e):
+                log.append("sync exit")
+
         async def cb(x):
             await susp(("callback",))
             log.append(x)
@@ -272,6 +281,18 @@ def run(tier, seed):
                 if why:
                     fails += 1
                     rep.violation("loop-agnostic:%s" % name, {"tool": name, "params": repr(c.params), "srcs": repr(c.srcs), "why": why})
+                if why is None and c.plan is None and c.tool.kind != "script":
+                    # the callable given in another shape (a callable object, a function returning a non-coroutine awaitable, a
+                    # class with awaitable instances): the same user suspensions reach the loop, the same result comes back
+                    fl = ["object", "awaitobj", "awaitclass"][len(r["tokens"]) % 3]
+                    rf = run_impl(c, suspend=True, reply=True, flavour=fl)
+                    whyf = verify(rf["ctx"], rf["tokens"], "%s %r (%s callables)" % (name, c.params, fl))
+                    if whyf is None and (len(rf["tokens"]) != len(r["tokens"]) or rf["outcome"][:2] != r["outcome"][:2]):
+                        whyf = "%s %r with %s callables: %d suspensions and outcome %r, with coroutine functions %d and %r" % (
+                            name, c.params, fl, len(rf["tokens"]), rf["outcome"][:2], len(r["tokens"]), r["outcome"][:2])
+                    if whyf:
+                        fails += 1
+                        rep.violation("loop-agnostic:%s" % name, {"tool": name, "params": repr(c.params), "srcs": repr(c.srcs), "callables": fl, "why": whyf})
                 # with non-suspending arguments the operation must not suspend at all
                 r0 = run_impl(c)
                 if r0["outcome"][0] == "exn" and r0["outcome"][1] == ("other", "RuntimeError") and "unexpected suspension" in repr(r0["outcome"][2:]):
